@@ -24,7 +24,7 @@ MANIFEST = {
 }
 
 REQUIRED = ["KV.C11.out_sublist", "KV.C11.header_counts", "KV.C11.kept_iff_single", "KV.C11.copy_identity",
-            "KV.C11.kept_iff_union", "KV.C11.kept_iff_multi", "KV.C11.out_sublist_binary", "KV.C11.out_sublist_multiple",
+            "KV.C11.kept_iff_union", "KV.C11.kept_iff_multi", "KV.C11.out_sublist_binary", "KV.C11.out_sublist_multiple", "KV.C11.header_counts_counter",
             "KV.C11.context_option", "KV.C11.decode_equiv"]
 
 
